@@ -8,7 +8,13 @@ operands (numbers, numpy arrays, scalars, arrays, foreign objects) and operation
 directly unless the operation is a division; a number on the right is combined directly; number / scalar goes through
 the empty quantity; otherwise the two quantities are combined with `self._value` as the first value; a foreign operand
 fails with AttributeError at `GetQuantity()` / `.value` in the order the arguments are evaluated.  C09's theorems are
-stated over `scalarDoOp` (through `binop`).  Core Lean only.
+stated over `scalarDoOp` (through `binop`).
+
+`arrayDoOperation_eq_model`: the generated `Array._DoOperation` (dispatch on number / ndarray / Array operands, the
+length check, the numpy branch as one call on whole containers, the element loop `arrayDoOperation_loop1` carrying
+`q` and `result`, the no-values fallback `operation_func(q1, q2, 1.0, 1.0)`, tuple or list result) equals `Ops.arrayDoOp`
+(over which C10's theorems are stated through `binop`), with `operation_func` = `opFunc` then `applyOp` per element
+and = `opFunc`, numpy broadcasting, `applyOp` per pair on whole containers.  Core Lean only.
 -/
 import Barril.Gen.CodeOps
 import Barril.Model.Ops
@@ -31,5 +37,155 @@ theorem scalarDoOperation_eq_model (env : Env) (q : Quantity) (v : Rat) (p1 p2 :
   cases h1 : isNumber p1 <;> cases hd : isDivision op <;> cases h2 : isNumber p2 <;>
     simp <;>
     (repeat' (first | rfl | split)) <;> simp_all <;> (try subst_vars) <;> (try simp_all)
+
+/-! ### `Array._DoOperation` -/
+
+/-- `getattr(unit_database, operation)(q1, q2, array1, array2)`: the vectorised call -/
+def operationFuncVecOf (env : Env) (op : Op) (q1 q2 : Quantity) (r1 r2 : Raw) : Except ErrKind (Quantity × List Rat) :=
+  match opFunc env op q1 q2 with
+  | .error e => .error e
+  | .ok (q, t1, t2) =>
+    match broadcastPairs r1 r2 with
+    | .error e => .error e
+    | .ok ps =>
+      match mapE (fun p => applyOp op t1 t2 p.1 p.2) ps with
+      | .error e => .error e
+      | .ok vs => .ok (q, vs)
+
+theorem arrayLoop_eq (env : Env) (op : Op) (vec : Quantity → Quantity → Raw → Raw → Except ErrKind (Quantity × List Rat))
+    (q1 q2 : Quantity) (pairs : List (Rat × Rat)) :
+    ∀ (qo : Option Quantity) (acc : List Rat),
+      Gen.Code.arrayDoOperation_loop1 (operationFuncOf env op) vec () q1 q2 qo acc pairs
+        = (match opFunc env op q1 q2 with
+           | .error e => (match pairs with | [] => .ok ((qo, acc), []) | _ :: _ => .error e)
+           | .ok (q, t1, t2) =>
+             match mapE (fun p => applyOp op t1 t2 p.1 p.2) pairs with
+             | .error e => .error e
+             | .ok vs => .ok ((match pairs with | [] => qo | _ :: _ => some q, acc ++ vs), [])) := by
+  induction pairs with
+  | nil =>
+    intro qo acc
+    unfold Gen.Code.arrayDoOperation_loop1
+    cases opFunc env op q1 q2 with
+    | error e => rfl
+    | ok r => obtain ⟨q, t1, t2⟩ := r; simp [mapE]
+  | cons p ps ih =>
+    intro qo acc
+    unfold Gen.Code.arrayDoOperation_loop1
+    cases hof : opFunc env op q1 q2 with
+    | error e => simp [operationFuncOf, hof]
+    | ok r =>
+      obtain ⟨q, t1, t2⟩ := r
+      have hop : operationFuncOf env op q1 q2 p.1 p.2
+          = (match applyOp op t1 t2 p.1 p.2 with
+             | .error e => .error e
+             | .ok r => .ok (q, r)) := by simp [operationFuncOf, hof]
+      simp only [hop, mapE]
+      cases applyOp op t1 t2 p.1 p.2 with
+      | error e => rfl
+      | ok v =>
+        simp only [ih, hof]
+        cases hm : mapE (fun p => applyOp op t1 t2 p.1 p.2) ps with
+        | error e => rfl
+        | ok vs => cases ps <;> simp
+
+/-- the part of the generated function after the operands were sorted out = `arrayCompute` -/
+theorem arrayTail_eq (env : Env) (op : Op) (q1 q2 : Quantity) (r1 r2 : Raw) (X : Except ErrKind Out)
+    (hX : X = (if genIsNumpy r1 r2 = true then
+        (match operationFuncVecOf env op q1 q2 r1 r2 with
+         | .error e => .error e
+         | .ok r => .ok (Out.array r.1 Kind.nd r.2))
+      else
+        (match Gen.Code.arrayDoOperation_loop1 (operationFuncOf env op) (operationFuncVecOf env op) () q1 q2 none []
+            (genPairs r1 r2) with
+         | .error e => .error e
+         | .ok l =>
+           match l.1.1 with
+           | some q => if genIsTuple r1 r2 = true then .ok (Out.array q Kind.tuple l.1.2) else .ok (Out.array q Kind.list l.1.2)
+           | none =>
+             match operationFuncOf env op q1 q2 1 1 with
+             | .error e => .error e
+             | .ok r => if genIsTuple r1 r2 = true then .ok (Out.array r.1 Kind.tuple l.1.2)
+                        else .ok (Out.array r.1 Kind.list l.1.2)))) :
+    X = arrayCompute env op q1 q2 r1 r2 := by
+  subst hX
+  unfold arrayCompute operationFuncVecOf
+  simp only [arrayLoop_eq]
+  cases hof : opFunc env op q1 q2 with
+  | error e => cases genIsNumpy r1 r2 <;> cases genPairs r1 r2 <;> simp [operationFuncOf, hof]
+  | ok r =>
+    obtain ⟨q, t1, t2⟩ := r
+    have hop : operationFuncOf env op q1 q2 1 1
+        = (match applyOp op t1 t2 1 1 with
+           | .error e => .error e
+           | .ok r => .ok (q, r)) := by simp [operationFuncOf, hof]
+    simp only [hop]
+    cases hn : genIsNumpy r1 r2
+    · simp only [Bool.false_eq_true, if_false]
+      cases hp : genPairs r1 r2 with
+      | nil =>
+        simp only [mapE, List.isEmpty_nil, if_true, List.append_nil]
+        cases applyOp op t1 t2 1 1 <;> cases genIsTuple r1 r2 <;> simp
+      | cons p ps =>
+        cases mapE (fun p => applyOp op t1 t2 p.1 p.2) (p :: ps) <;> cases genIsTuple r1 r2 <;> simp
+    · simp only [if_true]
+      cases broadcastPairs r1 r2 with
+      | error e => rfl
+      | ok ps => simp only []; cases mapE (fun p => applyOp op t1 t2 p.1 p.2) ps <;> rfl
+
+theorem arrayDoOperation_eq_model (env : Env) (p1 p2 : Operand) (op : Op) :
+    Gen.Code.arrayDoOperation (operationFuncOf env op) (operationFuncVecOf env op) p1 p2 op = arrayDoOp env p1 p2 op := by
+  unfold Gen.Code.arrayDoOperation arrayDoOp Gen.Code.operandRaw
+  cases h1 : rawOf p1 with
+  | some r1 =>
+    simp only [Option.isSome_some, if_true]
+    cases valuesOf p2 with
+    | error e => rfl
+    | ok r2 =>
+      simp only []
+      cases quantityOf p2 with
+      | error e => rfl
+      | ok q2 => exact arrayTail_eq env op emptyQ q2 r1 r2 _ rfl
+  | none =>
+    simp only [Option.isSome_none, Bool.false_eq_true, if_false]
+    cases h2 : rawOf p2 with
+    | some r2 =>
+      simp only [Option.isSome_some, if_true]
+      cases valuesOf p1 with
+      | error e => rfl
+      | ok r1 =>
+        simp only []
+        cases quantityOf p1 with
+        | error e => rfl
+        | ok q1 => exact arrayTail_eq env op q1 emptyQ r1 r2 _ rfl
+    | none =>
+      simp only [Option.isSome_none, Bool.false_eq_true, if_false]
+      cases valuesOf p1 with
+      | error e => rfl
+      | ok r1 =>
+        simp only []
+        cases rawLen r1 with
+        | error e => rfl
+        | ok n1 =>
+          simp only []
+          cases valuesOf p2 with
+          | error e => rfl
+          | ok r2 =>
+            simp only []
+            cases rawLen r2 with
+            | error e => rfl
+            | ok n2 =>
+              simp only []
+              by_cases hn : n1 = n2
+              · simp only [hn, ne_eq, not_true_eq_false, if_false, bne_self_eq_false, Bool.false_eq_true]
+                cases quantityOf p1 with
+                | error e => rfl
+                | ok q1 =>
+                  simp only []
+                  cases quantityOf p2 with
+                  | error e => rfl
+                  | ok q2 => exact arrayTail_eq env op q1 q2 r1 r2 _ rfl
+              · have hb : (n1 != n2) = true := by simpa using hn
+                simp [hn, hb]
 
 end Barril.Bridge.Ops
